@@ -57,12 +57,35 @@ def overlap_shapes(ctx):
     return f
 
 
+def after_failed_shapes(ctx):
+    """a run that ends with an engine-reported error (no output possible) followed by runs of the same prepared workflow
+    whose input makes an output possible - directly, and through a loop step whose first item fails"""
+    def f(rng):
+        import check_c13
+        items = []
+        wf = {'steps': {'a': {'kind': 'plugin', 'pstep': 'work', 'fields': {'input': tmap({'id': lit('a'), 's': ref('input.x')}), 'enabled': ref('input.flag')}},
+                        'b': {'kind': 'plugin', 'pstep': 'work', 'fields': {'input': tmap({'id': lit('b'), 's': ref('input.x'), 'deps': tmap({'t': ref('steps.a.outputs.success.tok')})})}}},
+              'outputs': {'success': tmap({'r': ref('steps.b.outputs.success.tok'), 'a': ref('steps.a.outputs.success.tok')})}}
+        script = {'a': {'exec': {'out': 'success', 'delay_ms': 3}}, 'b': {'exec': {'out': 'success', 'delay_ms': 3}}}
+        base = {'x': 'x', 'n': 1, 'flag': True}
+        for pattern in ([(False, True, True)] if ctx.quick else [(False, True, True), (False, False, True), (True, False, True)]):
+            inputs = [dict(base, x='run%d' % k, flag=fl) for k, fl in enumerate(pattern)]
+            runs = [{'input': i, 'start_delay_ms': 0} for i in inputs]
+            override = {k: (['success'] if fl else ['error']) for k, fl in enumerate(pattern)}
+            oc = {'a': dict(okoc(), enabled=True), 'b': okoc()}
+            items.append({'wf': wf, 'oc': oc, 'script': script, 'input': inputs[-1], 'inputs': inputs, 'schedule': None,
+                          'extra': {'runs': runs, 'overlap': False, 'timeout_ms': 30000}, 'want': ['success'], 'want_override': override,
+                          'nomeaning': True, 'mode': 'after-failed', 'at': 'after-failed %s' % (pattern,)})
+        return items
+    return f
+
+
 def run(ctx):
     prof = dict(max_steps=2, p_tag=0.0)
 
     def detail(f, it):
         return '%s [history %s]' % (f['detail'], it.get('mode', 'single'))
-    items, findings, stats = family.run_family_check(ctx, 'C14', n_quick=2, n_thorough=10, profile=prof, extra_items=lambda rng: rerun_items(ctx)(rng) + overlap_shapes(ctx)(rng), detail_fn=detail)
+    items, findings, stats = family.run_family_check(ctx, 'C14', n_quick=2, n_thorough=10, profile=prof, extra_items=lambda rng: rerun_items(ctx)(rng) + overlap_shapes(ctx)(rng) + after_failed_shapes(ctx)(rng), detail_fn=detail)
     # in a rerun history, a run that observes foreign values or returns another result than the isolated meaning breaks C14
     for f in findings:
         it = items[f['item']]
